@@ -72,8 +72,8 @@ Example::
 import functools
 import itertools
 import os.path
+import posixpath
 import urllib.parse
-import urllib.request
 import xml.dom
 
 from . import css, errorhandler, stylesheets
@@ -276,17 +276,27 @@ class Replacer:
     """
 
     def __init__(self, base):
+        self.href = base
         self.base = self.extract_base(base)
 
     def __call__(self, uri):
         scheme, location, path, query, fragment = urllib.parse.urlsplit(uri)
-        if scheme or location or path.startswith('/'):
+        base_scheme, base_location = urllib.parse.urlsplit(self.href)[:2]
+        if base_scheme or base_location:
+            # imported from another place: everything relative in that
+            # sheet is relative to where it came from
+            return urllib.parse.urljoin(self.href, uri)
+
+        if scheme or location or path.startswith('/') or not path:
             # keep anything absolute
             return uri
 
-        path, filename = os.path.split(path)
-        combined = os.path.normpath(os.path.join(self.base, path, filename))
-        return urllib.request.pathname2url(combined)
+        # both are URL paths already (do not quote again), query and
+        # fragment belong to the reference
+        combined = posixpath.normpath(posixpath.join(self.base, path))
+        if path.endswith('/'):
+            combined += '/'
+        return urllib.parse.urlunsplit(('', '', combined, query, fragment))
 
     @staticmethod
     def extract_base(uri):
